@@ -25,11 +25,36 @@ const (
 	envSup    = "DL_SUP"    // pid of the supervisor; daemons stop idling when it is gone
 	envLinger = "DL_LINGER" // ms the LAUNCHER process lingers between daemon.Run() returning true and os.Exit(0) ("slow clean-up")
 
-	maxN          = 8
+	envKinds = "DL_KINDS" // "h,x3,h,x0,p": what handler dl-<i> does (see kind* below); empty = all healthy
+	envSteps = "DL_STEPS" // "1,1,3": the caller issues its Launch calls in steps of that many concurrent calls; empty = all at once
+
+	maxN          = 12
 	daemonIdleCap = 60 * time.Second // nothing of the harness can live longer than this
 	callerCap     = 50 * time.Second
 	flagName      = "done.flag"
 )
+
+// kinds of handler behaviour
+const (
+	kindHealthy = "h"  // marker, sleep, predone, Done(), done record, idle
+	kindExit3   = "x3" // marker, then os.Exit(3) before Done()
+	kindExit0   = "x0" // marker, then os.Exit(0) before Done()
+	kindPanic   = "p"  // marker, then panic before Done()
+)
+
+func kindOf(kinds []string, i int) string {
+	if i < len(kinds) && kinds[i] != "" {
+		return kinds[i]
+	}
+	return kindHealthy
+}
+
+func parseKinds(s string) []string {
+	if s == "" {
+		return nil
+	}
+	return strings.Split(s, ",")
+}
 
 func handlerName(i int) string { return fmt.Sprintf("dl-%d", i) }
 
@@ -43,6 +68,7 @@ type Marker struct {
 	LauncherStart uint64 `json:"launcher_start"` // its starttime
 	Pgrp          int    `json:"pgrp"`
 	Sid           int    `json:"sid"`
+	Kind          string `json:"kind,omitempty"` // "" / "h" healthy, else a handler that fails before Done()
 }
 
 // PreDone is written immediately before Done() is called: the last thing "the daemon did before Done()".
@@ -101,7 +127,15 @@ func daemonMain(idx int) {
 	go lifeguard(dir, sup, pid, t0)
 	self, lst := readStat(pid), readStat(lpid)
 	writeAtomic(dir, fmt.Sprintf("marker.%d", pid), Marker{Pid: pid, Idx: idx, Seq: seq, Start: self.Start,
-		Launcher: lpid, LauncherStart: lst.Start, Pgrp: self.Pgrp, Sid: self.Sid})
+		Launcher: lpid, LauncherStart: lst.Start, Pgrp: self.Pgrp, Sid: self.Sid, Kind: kindOf(parseKinds(os.Getenv(envKinds)), idx)})
+	switch kindOf(parseKinds(os.Getenv(envKinds)), idx) {
+	case kindExit3:
+		os.Exit(3)
+	case kindExit0:
+		os.Exit(0)
+	case kindPanic:
+		panic("daemonlaunch harness: this handler fails before Done()")
+	}
 
 	if idx < len(delays) && delays[idx] > 0 {
 		time.Sleep(time.Duration(delays[idx]) * time.Millisecond)
@@ -168,6 +202,8 @@ func lifeguard(dir string, sup, pid int, t0 time.Time) {
 // CallReport is what the caller observed at the moment one Launch call returned.
 type CallReport struct {
 	Idx       int    `json:"idx"`
+	Kind      string `json:"kind,omitempty"`
+	Step      int    `json:"step"`
 	Pid       int    `json:"pid"`
 	Err       string `json:"err,omitempty"`
 	Failed    bool   `json:"failed,omitempty"` // err != nil
@@ -253,47 +289,75 @@ func callerMain() {
 
 	rep := CallerReport{CallerPid: os.Getpid(), Pgid: syscall.Getpgrp(), Calls: make([]CallReport, n),
 		SigintWasIgnored: wasIgn, SigintDefault: sigDefault, SigintNote: strings.TrimSpace(sigNote)}
-	var clock atomic.Int64
-	var wg sync.WaitGroup
-	start := make(chan struct{})
-	for i := 0; i < n; i++ {
-		wg.Add(1)
-		go func(i int) {
-			defer wg.Done()
-			r := &rep.Calls[i]
-			r.Idx = i
-			<-start
-			r.CallStamp = clock.Add(1)
-			pid, err, pan := safeLaunch(handlerName(i))
-			// ---- the moment Launch returned: observe before anything else ----
-			r.RetStamp = clock.Add(1)
-			r.Pid, r.Panic = pid, pan
-			if err != nil {
-				r.Failed, r.Err = true, err.Error()
-			}
-			if pid > 0 {
-				var m Marker
-				if readJSON(filepath.Join(dir, fmt.Sprintf("marker.%d", pid)), &m) {
-					r.MarkerPresent, r.Marker = true, &m
-				}
-				var p PreDone
-				if readJSON(filepath.Join(dir, fmt.Sprintf("predone.%d", pid)), &p) {
-					r.PreDonePresent, r.PreDone = true, &p
-				}
-				r.Stat = readStat(pid)
-				r.DonePresent = exists(filepath.Join(dir, fmt.Sprintf("done.%d", pid)))
-				if r.Marker != nil {
-					if st, same := sameProcess(r.Marker.Launcher, r.Marker.LauncherStart); same {
-						r.LauncherAlive, r.LauncherState = true, st.State
-					}
-				}
-			}
-			r.FlagPresent = exists(filepath.Join(dir, flagName))
-			writeAtomic(dir, fmt.Sprintf("ret.%d", i), r)
-		}(i)
+	kinds := parseKinds(os.Getenv(envKinds))
+	steps := parseDelays(os.Getenv(envSteps))
+	if len(steps) == 0 {
+		steps = []int{n}
 	}
-	close(start)
-	wg.Wait()
+	total := 0
+	for _, sz := range steps {
+		if sz <= 0 {
+			total = -1
+			break
+		}
+		total += sz
+	}
+	if total != n {
+		fmt.Fprintln(os.Stderr, "caller: steps do not add up to the number of calls")
+		os.Exit(2)
+	}
+	var clock atomic.Int64
+	launchOne := func(i, step int) {
+		r := &rep.Calls[i]
+		r.Idx, r.Kind, r.Step = i, kindOf(kinds, i), step
+		r.CallStamp = clock.Add(1)
+		pid, err, pan := safeLaunch(handlerName(i))
+		// ---- the moment Launch returned: observe before anything else ----
+		r.RetStamp = clock.Add(1)
+		r.Pid, r.Panic = pid, pan
+		if err != nil {
+			r.Failed, r.Err = true, err.Error()
+		}
+		if pid > 0 {
+			var m Marker
+			if readJSON(filepath.Join(dir, fmt.Sprintf("marker.%d", pid)), &m) {
+				r.MarkerPresent, r.Marker = true, &m
+			}
+			var p PreDone
+			if readJSON(filepath.Join(dir, fmt.Sprintf("predone.%d", pid)), &p) {
+				r.PreDonePresent, r.PreDone = true, &p
+			}
+			r.Stat = readStat(pid)
+			r.DonePresent = exists(filepath.Join(dir, fmt.Sprintf("done.%d", pid)))
+			if r.Marker != nil {
+				if st, same := sameProcess(r.Marker.Launcher, r.Marker.LauncherStart); same {
+					r.LauncherAlive, r.LauncherState = true, st.State
+				}
+			}
+		}
+		r.FlagPresent = exists(filepath.Join(dir, flagName))
+		writeAtomic(dir, fmt.Sprintf("ret.%d", i), r)
+	}
+	next := 0
+	for step, sz := range steps {
+		if sz == 1 && len(steps) > 1 {
+			launchOne(next, step) // a history: sequential calls on one goroutine
+		} else {
+			var wg sync.WaitGroup
+			start := make(chan struct{})
+			for i := next; i < next+sz; i++ {
+				wg.Add(1)
+				go func(i int) {
+					defer wg.Done()
+					<-start
+					launchOne(i, step)
+				}(i)
+			}
+			close(start)
+			wg.Wait()
+		}
+		next += sz
+	}
 	b, _ := json.Marshal(rep)
 	os.Stdout.Write(append(b, '\n'))
 }
